@@ -39,7 +39,8 @@ def cases(tier, r):
     fresh = argstore.Fresh()
     args, kwargs = argstore.gen_init(r, sig, fresh, allow_tv=True)
     ops = argstore.gen_tag_ops(r, sig, fresh, r.randint(1, 14 if tier == 'quick' else 30))
-    yield 'random', {'p': 'argstore', 'sig': sig, 'args': args, 'kwargs': kwargs, 'ops': ops}
+    ann = argstore.gen_ann(r, sig) if r.random() < 0.3 else []     # Annotated[...] tags: logged by the constructor
+    yield 'random', {'p': 'argstore', 'sig': sig, 'args': args, 'kwargs': kwargs, 'ops': ops, 'ann': ann}
 
 
 def widen(tier, r):
@@ -63,7 +64,7 @@ def execute(case):
     except Exception as e:      # == must not raise either (C06), report as not equal
       real['eq_without_history'] = f'raised {type(e).__name__}'
     real['build_without_history'] = argstore.real_build(twin)
-  req = {k: case[k] for k in ('p', 'sig', 'args', 'kwargs', 'ops')}
+  req = {k: case.get(k, []) for k in ('p', 'sig', 'args', 'kwargs', 'ops', 'ann')}
   return real, req
 
 
